@@ -6,7 +6,7 @@ is handed to the wrapped call, ...), not assumed by name.
 import ast
 
 from ..core import AnalysisError, u, walk_local, enclosing_stmt
-from ..lib import std_facts, calls_of_node, stored_names, in_subtree, def_of
+from ..lib import std_facts, calls_of_node, stored_names, in_subtree, def_of, names_of_text
 
 FACTORY = 'config._make_gin_wrapper'
 WRAPPER = 'config._make_gin_wrapper.gin_wrapper'
@@ -75,12 +75,147 @@ class WrapperModel:
           and prog.resolve_call(f, s.value) == 'config._get_supplied_positional_parameter_names':
         self.posnames = u(s.targets[0])
     # REQUIRED collections
-    self.req_pos_names = self._collector(self.A, indexes=False)
-    self.req_pos_idx = self._collector(self.A, indexes=True)
-    self.req_kw = self._collector(self.K, indexes=False)
+    flow = self._flow_collectors()
+    self.req_pos_pairs = self._pairs_collector() or flow.get('RP-pairs')
+    self.req_pos_names = self._collector(self.A, indexes=False) or flow.get('RP-names') or self._from_pairs(1)
+    self.req_pos_idx = self._collector(self.A, indexes=True) or flow.get('RP-idx') or self._from_pairs(0)
+    self.req_kw = self._collector(self.K, indexes=False) or flow.get('RK-names')
     self.pop_loops = self._pop_loops()
 
   # -------------------------------------------------------------------------
+  def _pairs_collector(self):
+    """Name of a list of (index, name) pairs of the positionals whose value `is REQUIRED`."""
+    f = self.f
+    for a in walk_local(f.node):
+      if isinstance(a, ast.Assign) and len(a.targets) == 1 and isinstance(a.targets[0], ast.Name) \
+          and isinstance(a.value, ast.ListComp) and len(a.value.generators) == 1:
+        c, gen = a.value, a.value.generators[0]
+        if self.A in {n.id for n in ast.walk(gen.iter) if isinstance(n, ast.Name)} and 'enumerate' in u(gen.iter) \
+            and isinstance(gen.target, ast.Tuple) and len(gen.target.elts) == 2 and isinstance(c.elt, ast.Tuple) and len(c.elt.elts) == 2 \
+            and u(c.elt.elts[0]) == u(gen.target.elts[0]) and isinstance(c.elt.elts[1], ast.Subscript) and u(c.elt.elts[1].slice) == u(gen.target.elts[0]) \
+            and any(isinstance(i, ast.Compare) and len(i.ops) == 1 and isinstance(i.ops[0], ast.Is) and u(i.comparators[0]) == REQ
+                    and u(i.left) == u(gen.target.elts[1]) for i in gen.ifs):
+          return a.targets[0].id
+    for lp in walk_local(f.node):
+      if isinstance(lp, ast.For) and self.A in {n.id for n in ast.walk(lp.iter) if isinstance(n, ast.Name)} and 'enumerate' in u(lp.iter) \
+          and isinstance(lp.target, ast.Tuple) and len(lp.target.elts) == 2:
+        for iff in walk_local(lp):
+          if isinstance(iff, ast.If) and isinstance(iff.test, ast.Compare) and len(iff.test.ops) == 1 and isinstance(iff.test.ops[0], ast.Is) \
+              and u(iff.test.comparators[0]) == REQ:
+            for st in iff.body:
+              if isinstance(st, ast.Expr) and isinstance(st.value, ast.Call) and isinstance(st.value.func, ast.Attribute) \
+                  and st.value.func.attr == 'append' and st.value.args and isinstance(st.value.args[0], ast.Tuple) and len(st.value.args[0].elts) == 2 \
+                  and u(st.value.args[0].elts[0]) == u(lp.target.elts[0]):
+                return u(st.value.func.value)
+    return None
+
+  def _flow_collectors(self):
+    """Lists filled by `X.append(E)` inside a loop over the (enumerated) positionals / the keywords,
+    at a point where the value `is REQUIRED` holds (whatever the shape of the tests around it)."""
+    out = {}
+    g, facts = self.g, self.facts
+    for n in g.live_nodes():
+      s_ = n.ast
+      if not (n.kind == 'stmt' and isinstance(s_, ast.Expr) and isinstance(s_.value, ast.Call) and isinstance(s_.value.func, ast.Attribute)
+              and s_.value.func.attr == 'append' and isinstance(s_.value.func.value, ast.Name) and len(s_.value.args) == 1):
+        continue
+      for lp in [l for l in n.loops if isinstance(l, ast.For)]:
+        src_names = {x.id for x in ast.walk(lp.iter) if isinstance(x, ast.Name)}
+        if not (isinstance(lp.target, ast.Tuple) and len(lp.target.elts) == 2):
+          continue
+        k_, v_ = u(lp.target.elts[0]), u(lp.target.elts[1])
+        if ('c', '%s is %s' % (v_, REQ), True) not in facts[n.id]:
+          continue
+        E = s_.value.args[0]
+        X = s_.value.func.value.id
+        if self.A in src_names and 'enumerate' in u(lp.iter):
+          # either only the named positionals are enumerated, or the index is known to be below their number here
+          it = lp.iter.args[0] if isinstance(lp.iter, ast.Call) and lp.iter.args else None
+          named_only = isinstance(it, ast.Subscript) and isinstance(it.slice, ast.Slice) and it.slice.lower is None and it.slice.upper is not None
+          below = any(f_[0] == 'c' and ((f_[2] is False and f_[1].replace(' ', '').startswith('%s>=len(' % k_)) or
+                                       (f_[2] is True and f_[1].replace(' ', '').startswith('%s<len(' % k_))) for f_ in facts[n.id])
+          if not (named_only or below):
+            continue
+          if isinstance(E, ast.Tuple) and len(E.elts) == 2 and u(E.elts[0]) == k_ and isinstance(E.elts[1], ast.Subscript) and u(E.elts[1].slice) == k_:
+            out.setdefault('RP-pairs', X)
+          elif isinstance(E, ast.Subscript) and u(E.slice) == k_:
+            out.setdefault('RP-names', X)
+          elif u(E) == k_:
+            out.setdefault('RP-idx', X)
+        elif self.K in src_names and u(E) == k_:
+          out.setdefault('RK-names', X)
+    return out
+
+  def classify(self, e, depth=0):
+    """What a list-valued expression holds: 'RP-pairs' ((index, name) of the REQUIRED positionals),
+    'RP-names', 'RP-idx', 'RK-names' (REQUIRED keywords) or None."""
+    if depth > 3:
+      return None
+    if isinstance(e, ast.Name):
+      if e.id == self.req_pos_pairs:
+        return 'RP-pairs'
+      for kind, nm in (('RP-names', getattr(self, 'req_pos_names', None)), ('RP-idx', getattr(self, 'req_pos_idx', None)),
+                       ('RK-names', getattr(self, 'req_kw', None))):
+        if nm and e.id == nm:
+          return kind
+      defs = [a.value for a in walk_local(self.f.node) if isinstance(a, ast.Assign) and len(a.targets) == 1 and u(a.targets[0]) == e.id]
+      if len(defs) == 1:
+        return self.classify(defs[0], depth + 1)
+      return None
+    if isinstance(e, ast.Call) and u(e.func) in ('list', 'tuple') and len(e.args) == 1:
+      return self.classify(e.args[0], depth + 1)
+    if isinstance(e, (ast.ListComp, ast.SetComp, ast.GeneratorExp)) and len(e.generators) == 1:
+      gen = e.generators[0]
+      req = any(isinstance(i, ast.Compare) and len(i.ops) == 1 and isinstance(i.ops[0], ast.Is) and u(i.comparators[0]) == REQ for i in gen.ifs)
+      src_names = {n.id for n in ast.walk(gen.iter) if isinstance(n, ast.Name)}
+      if req and len(gen.ifs) == 1 and self.A in src_names and 'enumerate' in u(gen.iter) and isinstance(gen.target, ast.Tuple) and len(gen.target.elts) == 2 \
+          and u(gen.ifs[0].left) == u(gen.target.elts[1]):
+        i_, elt = u(gen.target.elts[0]), e.elt
+        if isinstance(elt, ast.Tuple) and len(elt.elts) == 2 and u(elt.elts[0]) == i_ and isinstance(elt.elts[1], ast.Subscript) and u(elt.elts[1].slice) == i_:
+          return 'RP-pairs'
+        if isinstance(elt, ast.Subscript) and u(elt.slice) == i_:
+          return 'RP-names'
+        if u(elt) == i_:
+          return 'RP-idx'
+        return None
+      if req and len(gen.ifs) == 1 and self.K in src_names and isinstance(gen.target, ast.Tuple) and len(gen.target.elts) == 2 \
+          and u(gen.ifs[0].left) == u(gen.target.elts[1]) and u(e.elt) == u(gen.target.elts[0]):
+        return 'RK-names'
+      if not gen.ifs:
+        inner = self.classify(gen.iter, depth + 1)
+        if inner == 'RP-pairs' and isinstance(gen.target, ast.Tuple) and len(gen.target.elts) == 2:
+          if u(e.elt) == u(gen.target.elts[1]):
+            return 'RP-names'
+          if u(e.elt) == u(gen.target.elts[0]):
+            return 'RP-idx'
+        if inner == 'RP-idx' and isinstance(e.elt, ast.Subscript) and u(e.elt.slice) == u(gen.target):
+          return 'RP-names'
+    return None
+
+  def _from_pairs(self, k):
+    """Name of a variable that holds component k of the REQUIRED positional pairs."""
+    want = 'RP-names' if k == 1 else 'RP-idx'
+    for a in walk_local(self.f.node):
+      if isinstance(a, ast.Assign) and len(a.targets) == 1 and isinstance(a.targets[0], ast.Name) \
+          and isinstance(a.value, (ast.ListComp, ast.SetComp)) and self.classify(a.value) == want:
+        return a.targets[0].id
+    return None
+
+  def required_positional_loop(self, lp):
+    """(index variable, name variable) if the `for` statement lp visits every REQUIRED positional."""
+    if not isinstance(lp, ast.For) or not isinstance(lp.target, ast.Tuple) or len(lp.target.elts) != 2:
+      return None
+    it = lp.iter
+    if self.classify(it) == 'RP-pairs':
+      return u(lp.target.elts[0]), u(lp.target.elts[1])
+    if isinstance(it, ast.Call) and u(it.func) == 'zip' and len(it.args) == 2:
+      k0, k1 = self.classify(it.args[0]), self.classify(it.args[1])
+      if (k0, k1) == ('RP-idx', 'RP-names'):
+        return u(lp.target.elts[0]), u(lp.target.elts[1])
+      if (k1, k0) == ('RP-idx', 'RP-names'):
+        return u(lp.target.elts[1]), u(lp.target.elts[0])
+    return None
+
   def _collector(self, source, indexes):
     """Name of the list that collects names (or indexes) of entries of
     `source` (the *args / **kwargs parameter) whose value `is REQUIRED`."""
@@ -102,6 +237,8 @@ class WrapperModel:
           and isinstance(gen.target.elts[0], ast.Name) and c.elt.id == gen.target.elts[0].id
       if is_index:
         idx_lists.add(name)
+      if isinstance(c.elt, ast.Tuple):
+        continue          # (index, name) pairs: see _pairs_collector
       if is_index == indexes:
         return name
     if not indexes:
@@ -193,21 +330,37 @@ class WrapperModel:
         elif isinstance(a, ast.Expr) and isinstance(a.value, ast.Call) and isinstance(a.value.func, ast.Attribute) \
             and u(a.value.func.value) == e.id and a.value.func.attr in ('extend', 'update') and a.value.args:
           out |= self.nameset(a.value.args[0], seen | {e.id})
-      # for v in SRC: [if v not in EXC:] X.append(v)
-      for lp in walk_local(f.node):
-        if isinstance(lp, ast.For) and isinstance(lp.target, ast.Name) and len(lp.body) == 1 and not lp.orelse:
-          inner, exc, okc = lp.body[0], None, True
-          while isinstance(inner, ast.If) and not inner.orelse and len(inner.body) == 1:
-            t = inner.test
-            if isinstance(t, ast.Compare) and len(t.ops) == 1 and isinstance(t.ops[0], ast.NotIn) and u(t.left) == lp.target.id and exc is None:
-              exc = u(t.comparators[0])
-            else:
-              okc = False
-            inner = inner.body[0]
-          if okc and isinstance(inner, ast.Expr) and isinstance(inner.value, ast.Call) and isinstance(inner.value.func, ast.Attribute) \
-              and u(inner.value.func.value) == e.id and inner.value.func.attr in ('append', 'add') and len(inner.value.args) == 1 \
-              and u(inner.value.args[0]) == lp.target.id:
-            out |= {(src, exc if x is None else x) for src, x in self.nameset(lp.iter, seen | {e.id}) if x is None or exc is None}
+      # X.append(v) / X.add(v) inside `for v in SRC`, reached only when `v not in EXC` (or unconditionally), by the facts at the append
+      for n in self.g.live_nodes():
+        s_ = n.ast
+        if not (n.kind == 'stmt' and isinstance(s_, ast.Expr) and isinstance(s_.value, ast.Call) and isinstance(s_.value.func, ast.Attribute)
+                and s_.value.func.attr in ('append', 'add') and u(s_.value.func.value) == e.id and len(s_.value.args) == 1
+                and isinstance(s_.value.args[0], ast.Name)):
+          continue
+        var = s_.value.args[0].id
+        loops = [l for l in n.loops if isinstance(l, ast.For) and isinstance(l.target, ast.Name) and l.target.id == var]
+        if not loops:
+          # for k, v in K.items(): ... X.append(k) where `v is REQUIRED` is known to be false
+          for l in n.loops:
+            if isinstance(l, ast.For) and isinstance(l.target, ast.Tuple) and len(l.target.elts) == 2 and u(l.target.elts[0]) == var \
+                and u(l.iter) == self.K + '.items()' and self.req_kw:
+              v_ = u(l.target.elts[1])
+              conds = [f_ for f_ in self.facts[n.id] if f_[0] == 'c' and (var in names_of_text(f_[1]) or v_ in names_of_text(f_[1]))]
+              if conds == [('c', '%s is %s' % (v_, REQ), False)]:
+                out.add((self.K, self.req_kw))
+          continue
+        lp = loops[-1]
+        exc, okc = None, True
+        for fct in self.facts[n.id]:
+          if fct[0] != 'c' or var not in names_of_text(fct[1]):
+            continue
+          t = ast.parse(fct[1], mode='eval').body
+          if isinstance(t, ast.Compare) and len(t.ops) == 1 and isinstance(t.ops[0], ast.In) and u(t.left) == var and fct[2] is False and exc is None:
+            exc = u(t.comparators[0])
+          else:
+            okc = False
+        if okc:
+          out |= {(src, exc if x is None else x) for src, x in self.nameset(lp.iter, seen | {e.id}) if x is None or exc is None}
       return out if found else set()
     if isinstance(e, (ast.ListComp, ast.SetComp, ast.GeneratorExp)) and len(e.generators) == 1:
       gen = e.generators[0]
